@@ -41,6 +41,18 @@ var c10Programs = []program{
 		}},
 		{Path: "root/other", Files: []string{"package other\n\nvar Unrelated = 1\n"}},
 	}},
+	// two packages with the same name, each imported without an alias by one file: moving code
+	// between those files forces a new name for one of them, in the selectors and in the import
+	{Pkgs: []progPkg{
+		{Path: "lib/a/rand", Files: []string{"package rand\n\nfunc Read() int { return 4 }\n\ntype Source struct{ Seed int }\n"}},
+		{Path: "lib/b/rand", Files: []string{"package rand\n\nfunc Int() int { return 7 }\n\nvar Reader = 1\n"}},
+		{Path: "lib/use", Files: []string{
+			"package use\n\nimport \"lib/a/rand\"\n\nfunc Crypto() int {\n\tvar s rand.Source\n\treturn rand.Read() + s.Seed\n}\n",
+			"package use\n\nimport \"lib/b/rand\"\n\nfunc Math() int { return rand.Int() + rand.Reader }\n",
+			"package use\n\nvar plain = 1\n",
+		}},
+		{Path: "lib/empty", Files: []string{"package empty\n\nvar Nothing = 0\n"}},
+	}},
 }
 
 func declName(d dst.Decl) string {
@@ -124,7 +136,7 @@ func c10Check(mv c10Move) (key, what string) {
 		names[stripVendorRef(p)] = tp.Name()
 	}
 	srcPkg := prog.Pkgs[len(prog.Pkgs)-1]
-	if mv.Prog == 1 {
+	if mv.Prog == 1 || mv.Prog == 2 {
 		srcPkg = prog.Pkgs[2]
 	}
 	tgtPkgPath := srcPkg.Path
@@ -236,6 +248,7 @@ func c10Prop(c *Ctx) {
 	cands := []cand{
 		{0, 0, "use"}, {0, 0, "local"}, {0, 0, "sh"}, {0, 1, "dot"}, {0, 1, "dotted"}, {0, 2, "al"}, {0, 2, "aliased"},
 		{1, 0, "Encode"}, {1, 1, "Quick"}, {1, 2, "Dot"}, {1, 2, "table"}, {1, 2, "widths"}, {1, 2, "known"},
+		{2, 0, "Crypto"}, {2, 1, "Math"},
 	}
 	for _, cd := range cands {
 		nfiles := 3
@@ -265,6 +278,15 @@ func c10Prop(c *Ctx) {
 			}
 			if len(c.Res.Samples) < 2 {
 				c.Res.Samples = append(c.Res.Samples, mv)
+			}
+		}
+		if cd.prog == 2 {
+			mv := c10Move{Prog: 2, FromFile: cd.file, Decl: cd.decl, ToPkg: "lib/empty", ToFile: 0}
+			c.Res.Evaluations++
+			c.Res.seen(fmt.Sprint(mv))
+			c.Res.hist("c10", "cross-package")
+			if key, what := c10Check(mv); key != "" {
+				c.Res.fail(key, what, mv)
 			}
 		}
 	}
